@@ -104,7 +104,11 @@ class MemPerDocWriter(base.PerDocWriterWithColumns):
             self._lengths[fieldname] = length
 
     def add_vector_items(self, fieldname, fieldobj, items):
-        self._vectors[fieldname] = tuple(items)
+        items = tuple(items)
+        if items:
+            # (an empty vector is treated as no vector, as the on-disk codec
+            # does)
+            self._vectors[fieldname] = items
 
     def finish_doc(self):
         with self._segment._lock:
